@@ -149,9 +149,10 @@ def r1(repo, chk):
         mo = get_kw(c, "max_offset", 3)
         ok = False
         if isinstance(mo, ast.Call) and call_name(mo) == "min" and len(mo.args) == 2:
-            a = {norm(x) for x in mo.args}
+            args = [wa._expand(x, 4, set()) for x in mo.args]  # hoisted single-definition locals are read through
+            a = {norm(x) for x in args}
             st = norm(get_kw(c, "stream", 2))
-            conn_ok = any(_is_conn_credit(x, st) for x in mo.args)
+            conn_ok = any(_is_conn_credit(x, st) for x in args)
             ok = f"{st}.max_stream_data_remote" in a and conn_ok
         chk.ob("R1", "max_offset = min(highest_offset + connection credit left, per-stream limit)", ok, f"max_offset expression `{norm(mo) if mo is not None else None}`", wa.loc(c))
     g = Fn(repo, "quic.stream:QuicStreamSender.get_frame")
